@@ -16,7 +16,18 @@ var LibLoader = packagelib.Loader{
 	Name: "math",
 }
 
+// Each runtime has its own random generator, kept in its registry under this key.
+type randKeyType struct{}
+
+var randKey = rt.AsValue(randKeyType{})
+
+func runtimeRand(r *rt.Runtime) *rand.Rand {
+	rng, _ := r.Registry(randKey).Interface().(*rand.Rand)
+	return rng
+}
+
 func load(r *rt.Runtime) (rt.Value, func()) {
+	r.SetRegistry(randKey, rt.AsValue(rand.New(rand.NewSource(rand.Int63()))))
 	pkg := rt.NewTable()
 	r.SetEnv(pkg, "huge", rt.FloatValue(math.Inf(1)))
 	r.SetEnv(pkg, "maxinteger", rt.IntValue(math.MaxInt64))
@@ -307,12 +318,12 @@ func rad(t *rt.Thread, c *rt.GoCont) (rt.Cont, error) {
 	return c.PushingNext1(t.Runtime, y), nil
 }
 
-// TODO: have a per runtime random generator
 func random(t *rt.Thread, c *rt.GoCont) (rt.Cont, error) {
 	var (
-		err error
-		m   int64 = 1
-		n   int64
+		err  error
+		m    int64 = 1
+		n    int64
+		rand = runtimeRand(t.Runtime)
 	)
 	switch c.NArgs() {
 	case 0:
@@ -381,7 +392,7 @@ func randomseed(t *rt.Thread, c *rt.GoCont) (rt.Cont, error) {
 		// In Go the seed is only 64 bits so we mangle the seeds
 		seed ^= seed2
 	}
-	rand.Seed(seed)
+	runtimeRand(t.Runtime).Seed(seed)
 	return c.PushingNext(t.Runtime, rt.IntValue(seed), rt.IntValue(0)), nil
 }
 
